@@ -18,7 +18,7 @@ RULE = ("(a) schedules (source-line granularity) of {accept thread submitting 2-
 ASSUMPTIONS = ["scheduling points are source lines of Pool/Worker methods and the job body; CPython can also switch between bytecodes of one line",
                "a job accepted just before a racing close() may be dropped (the statement's 'starts no further job'); only runs without close require every accepted job to run",
                "a refusal is illegitimate only if accepted-minus-completed(notify_done returned) < THREADPOOL_SIZE at process() entry"]
-REQUIRED_REACH = ["schedules_explored", "jobs_executed", "refusals_seen", "closes_completed", "socket_clients_served", "socket_clients_refused"]
+REQUIRED_REACH = ["schedules_explored", "jobs_executed", "refusals_seen", "closes_completed", "socket_clients_served", "socket_clients_refused", "unix_socket_runs"]
 SHARD_TIMEOUT = {"quick": 240, "thorough": 3000}
 
 
@@ -242,8 +242,10 @@ def explore(P, cfg, bound, nrandom, npct, rec, r):
 
 
 # ---- (b) socket level -----------------------------------------------------------------------------------------------
-def socket_run(P, rec, r, size, nclients, inject):
-    fx = fixture.Fixture(servertype="thread", COMMTIMEOUT=0.0, THREADPOOL_SIZE=size, THREADPOOL_SIZE_MIN=r.randrange(1, size + 1))
+def socket_run(P, rec, r, size, nclients, inject, unix=False):
+    fx = fixture.Fixture(servertype="thread", unix=unix, COMMTIMEOUT=0.0, THREADPOOL_SIZE=size, THREADPOOL_SIZE_MIN=r.randrange(1, size + 1))
+    if unix:
+        rec.count("unix_socket_runs")
     served_tokens = {}
     lock = threading.Lock()
     active = [0]
@@ -296,7 +298,7 @@ def socket_run(P, rec, r, size, nclients, inject):
     if inject:
         n, lines = yieldinj.disable()
         rec.count("injected_yields", n)
-    pay = {"socket": True, "size": size, "nclients": nclients}
+    pay = {"socket": True, "size": size, "nclients": nclients, "unix": unix}
     hung = [t for t in ts if t.is_alive()]
     try:
         if hung:
@@ -356,20 +358,14 @@ def run_shard(shard, rec):
     P.svr_threads = Pyro5.svr_threads
     r = gen.rng(rec.seed, "c18", repr(shard))
     if shard["kind"] == "sched":
-        rec.count("socket_clients_served")
-        rec.count("socket_clients_refused")
         cfg = dict(shard["cfg"], max_runs=shard["max_runs"])
         explore(P, cfg, shard["bound"], shard["nrandom"], shard["npct"], rec, r)
-        if cfg["closer"] == "none":
-            rec.count("closes_completed")
         return
-    for k in ("schedules_explored", "jobs_executed", "refusals_seen", "closes_completed"):
-        rec.count(k)
     for run in range(shard["runs"]):
         if rec.should_stop(6):
             break
         size = r.choice([2, 3])
-        socket_run(P, rec, r, size, r.choice([20, 40, 60]) if rec.tier == "quick" else r.choice([20, 60, 120, 200]), inject=True)
+        socket_run(P, rec, r, size, r.choice([20, 40, 60]) if rec.tier == "quick" else r.choice([20, 60, 120, 200]), inject=True, unix=(run + shard["i"]) % 2 == 1)
 
 
 def replay(payload, rec):
@@ -377,7 +373,7 @@ def replay(payload, rec):
     import Pyro5.svr_threads
     P.svr_threads = Pyro5.svr_threads
     if payload.get("socket"):
-        socket_run(P, rec, gen.rng(0, "replay"), payload["size"], payload["nclients"], True)
+        socket_run(P, rec, gen.rng(0, "replay"), payload["size"], payload["nclients"], True, unix=payload.get("unix", False))
         return
     sc, res, mon = controlled_run(P, payload["cfg"], payload["choices"], None)
     rec.case(("replay", repr(payload)[:100]))
